@@ -13,6 +13,10 @@ import Bng.Map
     count and MaxSubscribers are Go `int`s (`Int`, division truncating towards zero).
   * Private / public IPv4 addresses are `Nat` (the harness maps k<n>, p<n> injectively to addresses).
   * The log is kept newest-first.
+  * `commitFail` / `allocFail` / `deallocFail` are the same calls when the write to the kernel subscriber_nat map
+    fails (Put of AllocateNAT, Delete of DeallocateNAT); `poke` is a caller writing over memory it was handed or
+    passed in (no effect: the manager keeps and hands out copies).  The kernel map itself is Model/NatKMap.lean,
+    the logger's buffering / flushing / failing output Model/NatLog.lean.
   Configuration fields are non-negative (`Nat`); negative Go ints are not modelled.
   Core Lean only.
 -/
@@ -95,6 +99,7 @@ inductive Obs where
   | none
   | count (n : Nat)
   | pools (l : List (Nat × Int × Int))
+  | kernErr                      -- the write to the kernel subscriber_nat map failed and the call returned that error
   deriving Repr, DecidableEq
 
 /-- AddPublicIP -/
@@ -193,6 +198,38 @@ def getAllocation (s : State) (k : Nat) : Obs :=
   | some a => .alloc a
   | none => .none
 
+/-! ### kernel-map failures (the subscriber_nat Put of AllocateNAT / Delete of DeallocateNAT returns an error)
+
+  `AllocateNAT`: the Put comes after the subscriber id has been taken and before the allocation is entered
+  into the table: the call returns the error, the id stays taken, nothing else changes.
+  `DeallocateNAT`: the Delete comes first; when it fails the call returns the error and NOTHING changes —
+  the kernel goes on translating with the block, so the block stays the subscriber's (the fix of finding
+  C10-delete-failure-frees-block; before it the table entry was removed, the slot counted free and the
+  release logged although the kernel entry stayed). -/
+
+/-- AllocateNAT, second critical section, when the kernel Put fails -/
+def commitFail (s : State) (k : Nat) : State × Obs :=
+  match AMap.lookup s.allocs k with
+  | some a => (s, .alloc a)          -- re-check under the pool lock: no kernel write
+  | none =>
+    match selectPool s.allocs s.pool 0 with
+    | none => (s, .exhausted)
+    | some _ =>
+      let (_, nextId', ids') := getOrCreateId s k
+      ({ s with nextId := nextId', ids := ids' }, .kernErr)
+
+/-- a sequential AllocateNAT call whose kernel Put fails -/
+def allocFail (s : State) (k : Nat) : State × Obs :=
+  match allocPre s k with
+  | (s', .miss) => commitFail s' k
+  | r => r
+
+/-- DeallocateNAT when the kernel Delete fails -/
+def deallocFail (s : State) (k : Nat) : State × Obs :=
+  match AMap.lookup s.allocs k with
+  | none => (s, .ok)                 -- not allocated: returns before any kernel write
+  | some _ => (s, .kernErr)
+
 inductive Op where
   | addIp (ip : Nat)
   | allocPre (k : Nat)
@@ -202,6 +239,14 @@ inductive Op where
   | get (k : Nat)
   | count
   | pools
+  | commitFail (k : Nat)       -- the pool-lock section of AllocateNAT with a failing kernel Put
+  | allocFail (k : Nat)        -- a sequential AllocateNAT with a failing kernel Put
+  | deallocFail (k : Nat)      -- DeallocateNAT with a failing kernel Delete
+  /-- the caller writes over memory of its own: the Allocation it was handed (PoolIndex, the bytes of PublicIP /
+      PrivateIP, the ports, the id), the address slice it passed to AllocateNAT / AddPublicIP, the entries
+      GetPoolStats returned.  The manager keeps and hands out copies (the fix of finding C10-returned-alias), so
+      nothing of the manager changes. -/
+  | poke
   deriving Repr, DecidableEq
 
 def step (s : State) : Op → State × Obs
@@ -213,6 +258,10 @@ def step (s : State) : Op → State × Obs
   | .get k => (s, getAllocation s k)
   | .count => (s, .count s.allocs.length)
   | .pools => (s, .pools (s.pool.map fun e => (e.ip, e.subs, e.max)))
+  | .commitFail k => commitFail s k
+  | .allocFail k => allocFail s k
+  | .deallocFail k => deallocFail s k
+  | .poke => (s, .ok)
 
 def run (s : State) (ops : List Op) : State := ops.foldl (fun st op => (step st op).1) s
 
